@@ -61,6 +61,9 @@ func (d *trigDef) sql(place string) string {
 			default:
 				body = append(body, fmt.Sprintf("INSERT INTO lg (trig, rid, olda, newa, newb) VALUES ('%s', OLD.id, OLD.a, NULL, NULL)", d.name))
 			}
+		case "declB":
+			// a local variable: declared (with its default) anew for every row the trigger runs for
+			body = append(body, "SET acc = acc + NEW.a", "SET NEW.b = acc")
 		case "setA":
 			body = append(body, fmt.Sprintf("SET NEW.a = NEW.a + %d", op.k))
 		case "setB":
@@ -77,6 +80,12 @@ func (d *trigDef) sql(place string) string {
 			body = append(body, fmt.Sprintf("IF %s = %d THEN SIGNAL SQLSTATE '45000' SET MESSAGE_TEXT = 'refused by trigger'; END IF", ref, op.k))
 		}
 	}
+	for _, op := range d.ops {
+		if op.kind == "declB" {
+			body = append([]string{"DECLARE acc INT DEFAULT 5"}, body...)
+			break
+		}
+	}
 	return fmt.Sprintf("CREATE TRIGGER %s %s %s ON t FOR EACH ROW%s BEGIN %s; END", d.name, d.time, d.event, place, strings.Join(body, "; "))
 }
 
@@ -89,8 +98,12 @@ func (d *trigDef) fire(old, nw *trigRow) (logs []trigLog, signalled bool) {
 		}
 		return fmt.Sprint(f(r))
 	}
+	acc := int64(5)
 	for _, op := range d.ops {
 		switch op.kind {
+		case "declB":
+			acc += nw.a
+			nw.b = acc
 		case "log":
 			rid := int64(0)
 			if nw != nil {
@@ -296,10 +309,13 @@ func checkC23(env *kernel.Env) {
 		for i := 0; i < nops; i++ {
 			switch {
 			case d.time == "BEFORE" && d.event != "DELETE" && T.Bool(1, 3):
-				if T.Bool(1, 2) {
+				switch T.Draw(3) {
+				case 0:
 					d.ops = append(d.ops, trigOp{"setA", int64(T.Range(1, 3))})
-				} else {
+				case 1:
 					d.ops = append(d.ops, trigOp{"setB", 0})
+				default:
+					d.ops = append(d.ops, trigOp{"declB", 0})
 				}
 			case !avoidFailures && T.Bool(1, 6):
 				d.ops = append(d.ops, trigOp{"signal", int64(T.Range(3, 9))})
